@@ -10,14 +10,23 @@ impl BlockTransactionsVerifier {
         transactions: &[core::TransactionView],
     ) -> Status {
         let block_short_ids = block.block_short_ids();
+        // The indexes were computed from the compact block of this peer, while the pending
+        // compact block may be the one of another peer: when the two disagree about the layout
+        // of the block, an index is not necessarily inside the pending compact block.
+        if let Some(index) = indexes
+            .iter()
+            .find(|index| **index as usize >= block_short_ids.len())
+        {
+            return StatusCode::BlockTransactionsLengthIsUnmatchedWithPendingCompactBlock
+                .with_context(format!(
+                    "Index({}) is out of the pending compact block({} transactions)",
+                    index,
+                    block_short_ids.len(),
+                ));
+        }
         let missing_short_ids: Vec<packed::ProposalShortId> = indexes
             .iter()
-            .filter_map(|index| {
-                block_short_ids
-                    .get(*index as usize)
-                    .expect("should never outbound")
-                    .clone()
-            })
+            .filter_map(|index| block_short_ids[*index as usize].clone())
             .collect();
 
         if missing_short_ids.len() != transactions.len() {
